@@ -255,6 +255,24 @@ pub ref return self Self static struct super trait true type unsafe use where wh
 typeof unsized virtual yield""".split())
 
 
+def msg_name(m, suffix):
+    """the struct name of a request/notification: its typeName when present (optional in lsp.schema.json), otherwise the name
+    derived from the method: "$/" stripped, split on "/", "_" and lower->Upper boundaries, parts capitalised and joined,
+    suffix appended unless already there.  (Regex formulation; lib/x_rs.py has its own loop-based one for the Coq hints.)"""
+    if m.get("typeName"):
+        return m["typeName"]
+    name = m["method"]
+    if name.startswith("$/"):
+        name = name[2:]
+    parts = re.sub(r"(?<=[a-z0-9])(?=[A-Z])", " ", re.sub(r"[/_]", " ", name)).split()
+    s = "".join(p[:1].upper() + p[1:].lower() for p in parts)
+    return s if s.endswith(suffix) else s + suffix
+
+
+def resp_name(tn):
+    return (tn[:-7] if tn.endswith("Request") else tn) + "Response"
+
+
 def search(text, doc, limit=200):
     issues = []
 
@@ -396,10 +414,7 @@ def search(text, doc, limit=200):
         return t is not None and t["kind"] == "reference" and t["name"] in mm.S and bool(mm.flat(t["name"]))
 
     def msg_struct(m, enum):
-        tn = m.get("typeName")
-        if not tn:
-            add(m["method"], "", "no typeName")
-            return None
+        tn = msg_name(m, "Request" if enum == "LSPRequestMethods" else "Notification")
         it = crate.items.get(tn)
         if it is None or it["kind"] != "struct":
             add(tn, m["method"], "no struct for this message")
@@ -421,7 +436,7 @@ def search(text, doc, limit=200):
     for r in doc["requests"]:
         tn = msg_struct(r, "LSPRequestMethods")
         if tn:
-            rn = (tn[:-7] if tn.endswith("Request") else tn) + "Response"
+            rn = resp_name(tn)
             it = crate.items.get(rn)
             if it is None or it["kind"] != "struct":
                 add(rn, r["method"], "no response struct")
@@ -438,9 +453,14 @@ def search(text, doc, limit=200):
     method_enum("LSPRequestMethods", doc["requests"])
     method_enum("LSPNotificationMethods", doc["notifications"])
     # ---- only proposed items are gated
-    req_t = {r.get("typeName"): r for r in doc["requests"]}
-    not_t = {n.get("typeName"): n for n in doc["notifications"]}
-    resp_of = {((t[:-7] if t.endswith("Request") else t) + "Response"): r for t, r in req_t.items() if t}
+    req_t = {msg_name(r, "Request"): r for r in doc["requests"]}
+    not_t = {msg_name(n, "Notification"): n for n in doc["notifications"]}
+    resp_of = {resp_name(t): r for t, r in req_t.items()}
+    # ---- no two messages share a struct
+    names = [msg_name(r, "Request") for r in doc["requests"]]
+    names = names + [resp_name(t) for t in names] + [msg_name(n, "Notification") for n in doc["notifications"]]
+    for t in sorted({t for t in names if names.count(t) > 1}):
+        add(t, "", "two messages (request / response / notification) have this struct name", 1, names.count(t))
     for name, it in crate.items.items():
         known = name in mm.S or name in mm.E or name in mm.A or name in req_t or name in not_t
         if not known:
